@@ -76,7 +76,7 @@ func (C19) Generate(c *Ctx, r *Rand, index int) *Scenario {
 		sc.Meta["keep_flags"] = []any{"-p=json", "-e", "-n", "-0", "ea", "-o=json", "-I0", "-N"}
 	}
 	prerun := func() (inBytes map[string]int64, outBytes int64) {
-		pre := c.ExecOpts(sc, RunOpts{})
+		pre := c.ExecOpts(withReadCounting(sc), RunOpts{})
 		c.Count("prerun")
 		inBytes = map[string]int64{}
 		for _, ev := range pre.Events {
@@ -235,6 +235,8 @@ func (C19) Generate(c *Ctx, r *Rand, index int) *Scenario {
 		evalAll = rs.Chance(1, 3)
 		format = "yaml"
 		finish(expr)
+		// every input stream is traced: the oracle wants to see that none is opened
+		sc.Plan.Readers = []ReaderPlan{{Stream: "input", ErrAt: -1}}
 		if rs.Chance(1, 4) {
 			// -n together with a file must be refused
 			g := &DocGen{R: r.Fork("doc"), Plain: true}
